@@ -45,6 +45,8 @@ type ctorCase struct {
 	build func(gl core.Limiter, lim, qmax, to int, evict bool, reg *RecordingRegistry, t0 time.Time) (core.Limiter, int, int, bool)
 }
 
+type sharedCtxKey struct{}
+
 func ticks(n int) time.Duration { return time.Duration(n) * tickDur }
 
 func effQ(qmax, to int) (int, int) {
@@ -173,6 +175,14 @@ func TestWrapperRandom(t *testing.T) {
 				default:
 					qmaxReq, toReq = r.between(1, 4), r.between(2, 6)
 				}
+				// one scenario in three: every caller passes the same context value (one request context used for parallel
+				// sub-calls, or context.Background()): a waiter is not identified by its context, so the delegate's calls cannot
+				// be attributed - the run is judged like a black box, by who is granted and refused when; giving up is by
+				// time-out only, and the waiters' time-outs are staggered
+				sharedCtx := r.chance(1, 3)
+				if sharedCtx && cc.kind == "queue" {
+					class, qmaxReq, toReq = "mixed", 4, r.between(3, 6)
+				}
 				evict := r.chance(1, 2)
 				var names []string
 				for i := 1; i <= nproc; i++ {
@@ -187,7 +197,10 @@ func TestWrapperRandom(t *testing.T) {
 				if err != nil {
 					t.Fatal(err)
 				}
-				gl := &GatedLimiter{c: c, inner: dl}
+				var gl core.Limiter = &GatedLimiter{c: c, inner: dl}
+				if sharedCtx {
+					gl = dl
+				}
 				l, qmax, to, ev := cc.build(gl, lim, qmaxReq, toReq, evict, reg, s.t0)
 				s.lim = l
 				cfg := wrapCfg{Kind: cc.kind, Ctor: cc.name, Limit: lim, QMax: qmax, QTimeout: to, EvictCtx: ev, Ordering: cc.expect, Expect: cc.expect,
@@ -210,6 +223,13 @@ func TestWrapperRandom(t *testing.T) {
 				}
 				// "served": no cancellation, callers within limit + backlog, every holder releases well before any time-out
 				canCancel := class != "served"
+				if sharedCtx {
+					shared := context.WithValue(context.Background(), sharedCtxKey{}, k)
+					s.wrapCtx = func(context.Context) context.Context { return shared }
+					canCancel = false
+					cfg.Ctor += "/shared-context"
+					cfg.Blackbox = true
+				}
 				if class == "served" && (cc.kind == "queue" || cc.kind == "blocking") && nproc <= lim+qmax && (to == 0 || to >= 100) {
 					cfg.AllServed = true
 				}
@@ -256,6 +276,26 @@ func TestWrapperRandom(t *testing.T) {
 				initial := lim + r.between(1, nproc-lim)
 				if class == "served" {
 					initial = nproc
+				}
+				if sharedCtx && cc.kind == "queue" && to < 50 {
+					// the limit is filled, then the waiters arrive a tick or two apart; time passes until the oldest has given up
+					// with younger ones still waiting, and a holder completes
+					for a := 0; a < lim; a++ {
+						arrive()
+					}
+					for a := 0; a < 3 && next < len(names); a++ {
+						arrive()
+						if a < 2 {
+							do(schedStep{A: "tick", N: r.between(1, 2)})
+						}
+					}
+					for tk := 0; tk < to+1 && len(sleepers()) >= 3; tk++ {
+						do(schedStep{A: "tick", N: 1})
+					}
+					if hs := holders(); len(hs) > 0 {
+						do(schedStep{A: "start", P: hs[0], Call: "release", Outcome: r.pick([]string{"success", "ignore", "dropped"})})
+					}
+					initial = 0
 				}
 				for a := 0; a < initial; a++ {
 					arrive()
